@@ -141,9 +141,40 @@ def run(ctx):
         ctx.ob('C31-INCLUDE.explicitly-included-attribute-is-reported', tj, bad[0].ast if bad else L.ast.iter, bool(reads) and not bad,
                '' if (reads and not bad) else 'an attribute listed in include= can still be skipped (`continue` at line %d is reachable with `%s in include`): to_json silently '
                'leaves out a value the caller asked for' % (bad[0].lineno if bad else 0, av), node=bad[0].ast if bad else L.ast)
+    # only= / exclude= may be given as one comma/space separated string: after the split, nothing tests membership in (or iterates over) the raw
+    # string -- `attr.name not in 'nickname, video_url'` is a substring test and also drops `name`, `id`, `video`, ...
+    from ..q import reaching_defs, value_of_def
+    ga = repo.fn(CORE, 'EntityMeta._get_attrs_'); g = cg.cfg(ga)
+    nnames = 0
+    for P in ('only', 'exclude'):
+        if P not in ga.params: continue
+        def s_atom(text, node, P=P):
+            if isinstance(node, ast.Call) and dotted(node.func) == 'isinstance' and len(node.args) == 2 and dotted(node.args[0]) == P and dotted(node.args[1]) == 'str': return True
+            if text == P: return True
+            return None
+        eo = scenario_edges(g, ga.node, s_atom, resolve=False)
+        live = g.reach([g.entry], edge_ok=eo)
+        for u in g.nodes:
+            if u.id not in live or u.ast is None: continue
+            root = u.ast.test if (u.kind == 'test' and hasattr(u.ast, 'test')) else (u.ast.iter if u.kind == 'iter' else u.ast)
+            if u.kind not in ('stmt', 'test', 'iter') or isinstance(root, (ast.If, ast.For, ast.While, ast.Try, ast.With, ast.FunctionDef)): continue
+            uses = [x for x in ast.walk(root) if (isinstance(x, ast.Compare) and len(x.ops) == 1 and isinstance(x.ops[0], (ast.In, ast.NotIn)) and dotted(x.comparators[0]) == P)
+                    or (isinstance(x, ast.comprehension) and dotted(x.iter) == P)]
+            if u.kind == 'iter' and dotted(root) == P: uses.append(root)
+            if not uses: continue
+            nnames += 1
+            ds = reaching_defs(g, u, P, with_params=True, edge_ok=eo)
+            raw = [d for d in ds if not (value_of_def(d, P) is not None and any(isinstance(c, ast.Call) and isinstance(c.func, ast.Attribute) and c.func.attr == 'split' for c in ast.walk(value_of_def(d, P))))]
+            ok = bool(ds) and not raw
+            ctx.ob('C31-INCLUDE.name-list-given-as-string-is-split-before-use', ga, u.ast if u.kind != 'iter' else root, ok,
+                   '' if ok else 'with %s given as a string, `%s` still sees the unsplit string: membership becomes a substring test (or iteration goes over characters), so '
+                   'attributes that were not named are dropped from / added to the serialised object' % (P, norm(uses[0] if not isinstance(uses[0], ast.comprehension) else uses[0].iter)[:60]),
+                   node=u.ast if u.kind != 'iter' else None)
+    ctx.floor('C31-INCLUDE', nnames, 3, 'uses of the only/exclude name lists in _get_attrs_')
 
 
 MUTANTS = [
+    dict(id='C31-names', file='pony/orm/core.py', fn='EntityMeta._get_attrs_', old="                if isinstance(only, str): only = only.replace(',', ' ').split()", new="                if isinstance(only, str) and ',' in only: only = only.replace(',', ' ').split()", expect='C31-INCLUDE.name-list'),
     dict(id='C31-i1', file='pony/orm/core.py', fn='Database.to_json', old="                    if attr in exclude: continue\n                    if attr in include: pass\n", new="                    if attr in exclude or attr.lazy: continue\n                    if attr in include: pass\n", expect='C31-INCLUDE'),
     dict(id='C31-m1', file='pony/orm/serialization.py', fn='Bag._reduce_composite_pk', old=".replace('*', '**').replace(',', '*,')", new=".replace(',', '*,').replace('*', '**')", expect='C31-ESC'),
     dict(id='C31-m2', file='pony/orm/serialization.py', fn='Bag._reduce_composite_pk', old=".replace('*', '**').replace(',', '*,')", new=".replace(',', '*,')", expect='C31-ESC'),
